@@ -6,6 +6,7 @@
   pre-tokenizer `split`, every list of special tokens and every input string; nothing is bounded.
 -/
 import OllamaVerif.Proofs.Tokenizer
+import OllamaVerif.Proofs.TokenizerVocab
 
 namespace OllamaVerif.C20
 open OllamaVerif.Tok
@@ -387,5 +388,93 @@ example : idVocab.Wf ∧ idVocab.CoversBytes false ∧ (∀ t, (byteSplit t).fla
   · intro t; induction t with
     | nil => rfl
     | cons b t ih => simpa [byteSplit] using ih
+
+/-! ## the theorems instantiated at the vocabulary the code builds from `Values` / `Types` / `Merges` -/
+
+theorem decodeRunes_ascii (q : Str) (h : ∀ r ∈ q, r < 0x80) : decodeRunes q = utf8s q := by
+  induction q with
+  | nil => rfl
+  | cons r q ih =>
+    have hr := h r (by simp)
+    have hq := ih (fun x hx => h x (List.mem_cons_of_mem _ hx))
+    have h1 : decRune r = some r := by
+      have e1 : r ≠ 0x100 := by omega
+      have e2 : r ≠ 0x143 := by omega
+      have e3 : ¬ (0x100 < r ∧ r ≤ 0x120) := by omega
+      have e4 : ¬ (0x120 < r ∧ r ≤ 0x142) := by omega
+      have e5 : r % 256 = r := Nat.mod_eq_of_lt (by omega)
+      simp only [decRune, if_neg e1, if_neg e2, if_neg e3, if_neg e4, e5]
+    have h2 : utf8 r = [r] := by simp [utf8, hr]
+    simp only [decodeRunes, List.filterMap_cons, h1, utf8s, List.flatMap_cons, h2] at hq ⊢
+    simp [hq]
+
+/-- **Ids in range, no hypothesis on the vocabulary**: for every `Values`/`Types`/`Merges` (duplicates, any token
+    types), every text and pre-tokenizer, every id `BytePairEncoding.Encode` returns is `< len(Values)` — the
+    special tokens' ids included (they come from `vocab.Encode(special)`); only BOS/EOS are configuration. -/
+theorem concrete_bpe_ids_in_range (pinned : Bool) (D : VocabData) (split : Str → List Str) (c : AddCfg) (s : Str)
+    (hbos : c.bos < D.values.length) (heos : c.eos < D.values.length) :
+    ∀ i ∈ bpeEncode pinned D.vocab split (D.specials utf8s) c s, i < D.values.length :=
+  bpe_ids_in_range pinned D.vocab split _ c s D.vocab_wf (fun q hq => (D.specials_wf utf8s q hq).1) hbos heos
+
+theorem concrete_spm_ids_in_range (D : VocabData) (c : AddCfg) (s : Str)
+    (hbos : c.bos < D.values.length) (heos : c.eos < D.values.length) :
+    ∀ i ∈ spmEncode D.vocab (D.specials id) c s, i < D.values.length :=
+  spm_ids_in_range D.vocab _ c s D.vocab_wf (fun q hq => (D.specials_wf _ q hq).1) hbos heos
+
+/-- **BPE round trip for the vocabulary the code builds**: `Wf` is proved (not assumed), the special tokens are the
+    ones `SpecialVocabulary()` returns with the ids `Encode` looks up, and hypothesis `hsp` is replaced by the
+    decidable condition on the data "every special token's string is ASCII" (the excluded case is the known
+    finding BPE-nonascii-special). -/
+theorem concrete_bpe_roundtrip (D : VocabData) (split : Str → List Str) (s : Str)
+    (hcov : ∀ b, b < 256 → b ≠ 0 → [encByte false b] ∈ D.values)
+    (hascii : ∀ q ∈ D.specialStrings.getD [], ∀ r ∈ q, r < 0x80)
+    (hsplit : ∀ t, Frag.text t ∈ fragments (D.specials utf8s) s → (split t).flatten = t)
+    (hs : ∀ b ∈ s, b < 256 ∧ b ≠ 0) :
+    bpeDecode D.vocab (bpeEncode false D.vocab split (D.specials utf8s) noAdd s) = s := by
+  apply bpe_roundtrip_fixed D.vocab split _ s D.vocab_wf _ hsplit _ hs
+  · intro b hb
+    exact lastIdxFrom_isSome _ _ _ (hcov b hb.1 hb.2.1)
+  · intro q hq
+    obtain ⟨_, h2, h3, _⟩ := D.specials_wf utf8s q hq
+    rw [h2, h3]
+    apply decodeRunes_ascii
+    simp only [VocabData.specials, List.mem_map] at hq
+    obtain ⟨x, hx, rfl⟩ := hq
+    exact hascii x hx
+
+/-- **SPM round trip for the vocabulary the code builds** (same two necessary guards on the text). -/
+theorem concrete_spm_roundtrip_partial (D : VocabData) (s : Str)
+    (hbt : ∀ b, b < 256 → byteTok b ∈ D.values) (hsep : 32 ∈ s → [sepRune] ∈ D.values)
+    (hshape : ∀ q ∈ D.specialStrings.getD [], parseByteTok (utf8s q) = none)
+    (hvalid : ∀ r ∈ s, r < 0x110000) (hnosep : sepRune ∉ s) (hnolit : NoByteLit D.vocab s) :
+    spmDecode D.vocab (spmEncode D.vocab (D.specials id) noAdd s) = some (utf8s s) := by
+  apply spm_roundtrip_partial D.vocab _ s D.vocab_wf _ _ _ hvalid hnosep hnolit
+  · intro b hb; exact lastIdxFrom_isSome _ _ _ (hbt b hb)
+  · intro h; exact lastIdxFrom_isSome _ _ _ (hsep h)
+  · intro q hq
+    obtain ⟨_, h2, h3, _⟩ := D.specials_wf id q hq
+    refine ⟨by rw [h2, h3]; rfl, ?_⟩
+    simp only [VocabData.specials, List.mem_map] at hq
+    obtain ⟨x, hx, rfl⟩ := hq
+    exact hshape x hx
+
+/-- a concrete `Vocabulary`: DUPLICATE value "a" (ids 0 and 2), a control token, a turn marker typed NORMAL -/
+def dupData : VocabData :=
+  ⟨[[97], [98], [97], [60, 115, 62], startOfTurn], [1, 1, 1, 3, 1], [0, 0, 0, 0, 0], [[97, 32, 98], [97, 32, 98]]⟩
+
+/-- non-vacuity / behaviour on duplicates: `Encode("a")` is the LAST index 2, the duplicate merge line has the LAST
+    rank 1, the specials are `<s>` (CONTROL) and `<start_of_turn>` (by name), with their ids -/
+example : dupData.vocab.tokId [97] = some 2 ∧ dupData.vocab.rank [97] [98] = some 1 ∧
+    dupData.specialStrings = some [[60, 115, 62], startOfTurn] ∧
+    (dupData.specials id).map (·.id) = [3, 4] := by decide
+
+/-- `Types` shorter than `Values`: the model reports the index-out-of-range panic of `SpecialVocabulary` -/
+example : (⟨[[97], [98]], [1], [], []⟩ : VocabData).specialStrings = none := by decide
+
+/-- non-vacuity of `mergeAll_fuel_sufficient`: a run that really merges ("aaaa" with the rule a+a, aa+aa) gives
+    the same parts with ten times the fuel -/
+example : (mergeAll (bpeCfg ⟨fun s => if s = [97, 97] then some 1 else if s = [97, 97, 97, 97] then some 2 else none,
+      fun _ => [], fun l r => if l = r then some l.length else none, fun _ => 0, 3⟩) [97, 97, 97, 97]).map (·.runes)
+    = [[97, 97, 97, 97]] := by decide
 
 end OllamaVerif.C20
